@@ -357,8 +357,9 @@ fn check_threads(case: &ThreadCase) -> CaseResult {
             ta.join().map_err(|_| "dropper thread panicked".to_string())?;
             tb.join().map_err(|_| "dropper thread panicked".to_string())?;
         }
-        // Let the probe manager drain its mailbox (bounded, generous).
-        for _ in 0..200 {
+        // Let the probe manager drain its mailbox: leaves as soon as every topic ends in an
+        // Unsubscribe, waits up to 30 s otherwise (load must not turn into a missing record).
+        for _ in 0..30_000 {
             tokio::task::yield_now().await;
             tokio::time::sleep(std::time::Duration::from_millis(1)).await;
             let done = topics.iter().all(|t| topic_events(&probe, *t).last() == Some(&false));
